@@ -141,7 +141,8 @@ def col_values(cs, n):
             labels = [x + 0.5 for x in rng.sample(range(-1000, 1000), ncat)]
         codes = np.array([rng.randrange(ncat) for _ in range(n)], dtype="int64")
         codes[m] = -1
-        cat = pd.Categorical.from_codes(codes, categories=labels, ordered=(kind == "cat_str_ordered"))
+        # (wave 7: a colspec may say "ordered": true / false for ANY categorical kind; default as before)
+        cat = pd.Categorical.from_codes(codes, categories=labels, ordered=bool(cs.get("ordered", kind == "cat_str_ordered")))
         return pd.Series(cat, name=name)
     raise ValueError(kind)
 
